@@ -179,15 +179,36 @@ def loop_body(fn, hb):
     return body
 
 
+_LOOPS = {}
+
+
+def natural_loops(fn):
+    """{head block id: body node set} for every block that is the target of a back edge (an edge from a node the
+    block dominates) - whatever statement the loop was written with, and with a compound condition the block of its
+    first operand"""
+    key = (id(fn), fn.file, fn.name, len(fn.blocks))
+    if key in _LOOPS:
+        return _LOOPS[key]
+    out = {}
+    for hb in fn.blocks:
+        h0 = fn.node(hb, 0)
+        preds = [p for p in fn.pred(h0) if p is not h0]
+        if len(preds) < 2 and not any(p.bid == hb for p in preds):
+            continue
+        if not any(fn.dominated_by(p, [h0]) for p in preds):
+            continue
+        body = loop_body(fn, hb)
+        if len(body) > 1:
+            out[hb] = body
+    _LOOPS[key] = out
+    return out
+
+
 def loop_head(fn, node):
     """block id of the innermost loop whose body contains node (None if not in a loop)"""
     best, head = None, None
-    for hb, b in fn.blocks.items():
-        t = b.get("t")
-        if not t or t.get("k") not in ("for", "while", "do"):
-            continue
-        body = loop_body(fn, hb)
-        if node in body and len(body) > 1:
+    for hb, body in natural_loops(fn).items():
+        if node in body:
             if best is None or len(body) < best:
                 best, head = len(body), hb
     return head
@@ -542,11 +563,17 @@ def ring_cursor_uses(fn, consumers, consumer_arg):
     for c in sorted(cursors):
         wp = wrap_points(fn, c)
         adv = []
+        copies = {T.path(n.ev["lhs"]) for n in fn.events("S") if n.ev.get("o") == "=" and T.path(n.ev.get("rhs")) == c
+                  and T.path(n.ev["lhs"])}
         for n in fn.events("S"):
             if T.path(n.ev["lhs"]) != c:
                 continue
             o = n.ev.get("o")
-            if o in ("++", "+=") or (o == "=" and n.ev.get("rhs") is not None and mentions(n.ev["rhs"], c)):
+            rhs = n.ev.get("rhs")
+            r0 = T.strip(rhs) if rhs is not None else None
+            via_copy = o == "=" and isinstance(r0, dict) and r0.get("k") == "b" and r0.get("o") == "+" and \
+                any(T.path(x) in copies for x in (r0.get("l"), r0.get("r")))     # `v = c; c = v + 1`
+            if o in ("++", "+=") or (o == "=" and rhs is not None and mentions(rhs, c)) or via_copy:
                 adv.append(n)
         uses = []
         for n in fn.events():
@@ -634,7 +661,7 @@ def stale_inode_writes(fn):
     return out
 
 
-def loop_counter_exits(fn, hb, edge_ok=None):
+def loop_counter_exits(fn, hb, edge_ok=None, any_step=False):
     """Progress measure of an otherwise unbounded loop (head block hb): local counters c such that every turn of the
     loop (a path from the head back to the head, along edges accepted by edge_ok) passes an increment of c, and
     passes a test of c against an expression the loop does not assign, one of whose outcomes leaves the loop.
@@ -650,9 +677,11 @@ def loop_counter_exits(fn, hb, edge_ok=None):
                 assigned.add(p)
     out = []
     incs = {}
+    # a turn stays inside the loop: paths that leave it (and may come back through an enclosing loop) do not count
+    exits = {m for n in body for (m, si) in fn.succ(n) if m not in body}
     for n in body:
         if n.ev and n.ev["e"] == "S" and n.ev.get("o") in ("++", "+=") and T.strip(n.ev["lhs"]).get("k") == "v":
-            if n.ev["o"] == "+=" and not ((T.const(n.ev.get("rhs")) or 0) > 0):
+            if n.ev["o"] == "+=" and not any_step and not ((T.const(n.ev.get("rhs")) or 0) > 0):
                 continue
             incs.setdefault(T.strip(n.ev["lhs"])["n"], []).append(n)
     for c, nodes in sorted(incs.items()):
@@ -660,33 +689,39 @@ def loop_counter_exits(fn, hb, edge_ok=None):
         if any(n.ev and n.ev["e"] == "S" and T.path(n.ev["lhs"]) == c and n not in nodes for n in body):
             continue
         # every turn passes an increment
-        r = fn.reach(fn.after(h0) if len(fn.blocks[hb].get("ev", [])) else [m for (m, _) in fn.succ(h0)],
-                     avoid=nodes, edge_ok=edge_ok)
+        r = fn.reach([m for m in (fn.after(h0) if len(fn.blocks[hb].get("ev", [])) else [m for (m, _) in fn.succ(h0)]) if m in body],
+                     avoid=set(nodes) | exits, edge_ok=edge_ok)
         r = {x for x in r if x in body}
         if any(b_ in r for b_ in back) or h0 in r:
             continue
-        # a test of the counter with an exit
+        # a test of the counter (or of a copy taken of it inside the loop) with an exit
+        names = {c}
+        for n in body:
+            if n.ev and n.ev["e"] == "S" and n.ev.get("o") == "=" and T.strip(n.ev["lhs"]).get("k") == "v" and \
+                    T.path(n.ev.get("rhs")) == c and isinstance(T.strip(n.ev.get("rhs")), dict) and T.strip(n.ev["rhs"]).get("k") == "v":
+                names.add(T.strip(n.ev["lhs"])["n"])
         for bid, b in fn.blocks.items():
             t = b.get("t")
             end = fn.block_end(bid)
             if end not in body or not t or not isinstance(t.get("c"), dict):
                 continue
             cmp_ = [x for x in T.walk(t["c"]) if isinstance(x, dict) and x.get("k") == "b" and x.get("o") in ("<", "<=", ">", ">=")
-                    and c in T.vars_in(x)]
+                    and (names & T.vars_in(x))]
             if not cmp_:
                 continue
             other = set()
             for x in cmp_:
-                other |= {v for v in T.vars_in(x) if v != c}
+                other |= {v for v in T.vars_in(x) if v not in names}
             if other & assigned:
                 continue
             leaves = [m for (m, si) in fn.succ(end) if m not in body]
             if not leaves:
                 continue
-            r2 = fn.reach([m for (m, _) in fn.succ(h0)], avoid=[end], edge_ok=edge_ok)
-            r2 = {x for x in r2 if x in body}
-            if any(b_ in r2 for b_ in back) or h0 in r2:
-                continue
+            if bid != hb:       # (the loop's own header test is passed by every turn by construction)
+                r2 = fn.reach([m for (m, _) in fn.succ(h0) if m in body], avoid={end} | exits, edge_ok=edge_ok)
+                r2 = {x for x in r2 if x in body}
+                if any(b_ in r2 for b_ in back) or h0 in r2:
+                    continue
             out.append((c, nodes[0], bid))
     return out
 
